@@ -723,12 +723,35 @@ Lemma move_number_range n : in_int64 (move_number n) = true.
 Proof. unfold in_int64, move_number, wrap64, two63, two64. lia. Qed.
 
 (** ** fen() followed by setupBoard *)
-Lemma setup_fen_of p : fpos_wf p = true ->
-  exists F, fen_of_opt p = Some F /\ setup F = Ok p.
+Lemma fstruct_inv p : fstruct p = true ->
+  length (f_board p) = 64%nat /\ forallb cell_ok (f_board p) = true /\
+  count_code (f_board p) 1 = 1%nat /\ count_code (f_board p) 9 = 1%nat /\
+  f_side p < 2 /\ f_cr p < 16 /\ ep_wf p = true /\ not_in_check p = true.
 Proof.
-  intros Hwf. apply fpos_wf_inv in Hwf.
-  destruct Hwf as (Hl & Hc & Hk1 & Hk9 & Hs & Hcr & Hep & Hh & Hn & Hpar & Hchk).
-  unfold max_move_number, two63 in *.
+  unfold fstruct. intros H. repeat (apply andb_true_iff in H as [H ?]).
+  apply Nat.eqb_eq in H.
+  repeat match goal with
+         | H : Nat.eqb _ _ = true |- _ => apply Nat.eqb_eq in H
+         | H : (_ <? _) = true |- _ => apply N.ltb_lt in H
+         end.
+  repeat split; assumption.
+Qed.
+
+Lemma fpos_wf_struct p : fpos_wf p = true -> fstruct p = true.
+Proof.
+  intros H. apply fpos_wf_inv in H.
+  destruct H as (Hl & Hc & Hk1 & Hk9 & Hs & Hcr & Hep & _ & _ & _ & Hchk).
+  unfold fstruct. rewrite Hl, Hc, Hk1, Hk9, Hep, Hchk.
+  replace (f_side p <? 2) with true by lia. replace (f_cr p <? 16) with true by lia. reflexivity.
+Qed.
+
+(* general form: the board, side, rights and en-passant square always survive; only the clocks
+   can make the second setup fail ([reparse]) *)
+Lemma setup_fen_of_gen p : fstruct p = true -> in_int64 (f_hmc p) = true ->
+  exists F, fen_of_opt p = Some F /\ setup F = reparse p.
+Proof.
+  intros Hst Hi. apply fstruct_inv in Hst.
+  destruct Hst as (Hl & Hc & Hk1 & Hk9 & Hs & Hcr & Hep & Hchk).
   destruct (board_roundtrip (f_board p) Hl Hc) as (bs & Hbs & Hb & Hne & Hloop).
   destruct (cr_field_out (f_cr p) Hcr) as [Hcrf Hcrn].
   destruct (ep_field_out p Hl Hep) as [Hepf Hepn].
@@ -737,7 +760,7 @@ Proof.
   destruct Hside as (ss & Hss & Hsf & Hsn).
   unfold fen_of_opt. rewrite Hbs, Hss. eexists. split; [reflexivity|].
   set (hs := itoa (f_hmc p)). set (ms := itoa (move_number (f_nhm p))).
-  assert (Hhn : nosp hs = true) by (apply itoa_nosp; unfold two63; lia).
+  assert (Hhn : nosp hs = true) by (apply itoa_nosp; unfold in_int64 in Hi; lia).
   assert (Hmn : nosp ms = true).
   { apply itoa_nosp. pose proof (move_number_range (f_nhm p)) as H. unfold in_int64 in H. lia. }
   assert (Hbn : nosp bs = true).
@@ -763,9 +786,19 @@ Proof.
   rewrite Hk1, Hk9. cbn [Nat.eqb negb orb].
   (* the fields *)
   unfold setup_rest. cbn [nth_error]. rewrite Hsf, Hcrf, Hepf.
-  unfold hmc_field, mn_field. unfold hs, ms.
-  assert (Hi : in_int64 (f_hmc p) = true) by (unfold in_int64, two63; lia).
+  unfold hmc_field, mn_field, reparse. unfold hs, ms.
   rewrite (atoi_itoa _ Hi), (atoi_itoa _ (move_number_range _)).
+  destruct (f_hmc p <? 0)%Z; [reflexivity|].
+  destruct ((move_number (f_nhm p) <? 0)%Z || (max_move_number <? move_number (f_nhm p))%Z); [reflexivity|].
+  unfold not_in_check in Hchk. apply negb_true_iff in Hchk. rewrite Hchk.
+  reflexivity.
+Qed.
+
+Lemma reparse_wf p : fpos_wf p = true -> reparse p = Ok p.
+Proof.
+  intros Hwf. apply fpos_wf_inv in Hwf.
+  destruct Hwf as (_ & _ & _ & _ & Hs & _ & _ & Hh & Hn & Hpar & _).
+  unfold max_move_number, two63 in *. unfold reparse.
   replace (f_hmc p <? 0)%Z with false by lia.
   assert (Hm : move_number (f_nhm p) = ((f_nhm p + 1) / 2)%Z).
   { unfold move_number, wrap64, two63, two64. lia. }
@@ -773,8 +806,32 @@ Proof.
   replace (((f_nhm p + 1) / 2 <? 0)%Z || (1000000 <? (f_nhm p + 1) / 2)%Z) with false by lia.
   replace ((f_nhm p + 1) / 2 =? 0)%Z with false by lia.
   replace (2 * ((f_nhm p + 1) / 2) - (1 - Z.of_N (f_side p)))%Z with (f_nhm p) by lia.
-  unfold not_in_check in Hchk. apply negb_true_iff in Hchk. rewrite Hchk.
   destruct p; reflexivity.
+Qed.
+
+(* used for the history rebase of the UCI position command: if the second setup succeeds at
+   all, it gives back the very same position *)
+Lemma reparse_same p p' : (1 <= f_nhm p < two63 - 1)%Z -> f_side p < 2 ->
+  ((f_nhm p + Z.of_N (f_side p)) mod 2 = 1)%Z -> reparse p = Ok p' -> p' = p.
+Proof.
+  intros Hn Hs Hpar. unfold reparse, two63 in *.
+  destruct (f_hmc p <? 0)%Z; [discriminate|].
+  assert (Hm : move_number (f_nhm p) = ((f_nhm p + 1) / 2)%Z).
+  { unfold move_number, wrap64, two63, two64. lia. }
+  rewrite Hm.
+  destruct (((f_nhm p + 1) / 2 <? 0)%Z || (max_move_number <? (f_nhm p + 1) / 2)%Z); [discriminate|].
+  replace ((f_nhm p + 1) / 2 =? 0)%Z with false by lia.
+  replace (2 * ((f_nhm p + 1) / 2) - (1 - Z.of_N (f_side p)))%Z with (f_nhm p) by lia.
+  intros H. injection H as <-. destruct p; reflexivity.
+Qed.
+
+Lemma setup_fen_of p : fpos_wf p = true ->
+  exists F, fen_of_opt p = Some F /\ setup F = Ok p.
+Proof.
+  intros Hwf. pose proof (fpos_wf_inv _ Hwf) as (_ & _ & _ & _ & _ & _ & _ & Hh & _).
+  destruct (setup_fen_of_gen p (fpos_wf_struct p Hwf)) as (F & HF & HS).
+  { unfold in_int64, two63 in *. lia. }
+  exists F. split; [assumption|]. now rewrite HS, reparse_wf.
 Qed.
 
 Theorem fen_of_total : forall p, fpos_wf p = true -> fen_of_opt p = Some (fen_of p).
@@ -1060,6 +1117,253 @@ Example fen_roundtrip_fmn0 :
   let q := mkpos start_board 0 15 64 0 0 in
   legal_pos q = true /\ exists p, setup (print q) = Ok p /\ fen_of p <> print q.
 Proof. cbv zeta. split; [vm_compute; reflexivity|]. eexists. split; [vm_compute; reflexivity|]. vm_compute. discriminate. Qed.
+
+(** ** observations of the real engine (NewPositionFen at the modelled revision): a sample of the
+    4801 strings used to validate the model (valid FENs, byte mutations, over-long ranks, digits
+    0 and 9, missing / empty fields, signs and huge values in the clocks, Unicode white space,
+    invalid UTF-8): error site (0 = accepted; 12/13, 2/5, 9/10 merged as the Go texts coincide),
+    StringFen(), nextHalfMoveNumber *)
+Definition fen_observed : list (str * (N * str * Z)) := [
+  ([50;114;113;51;114;47;110;66;54;47;49;112;112;98;50;107;49;47;112;49;80;112;112;110;112;112;47;49;80;49;80;98;80;112;49;47;54;80;80;47;78;66;50;78;51;47;82;51;75;50;82;32;119;32;45;32;104;54;32;48;32;50;57], (0, [50;114;113;51;114;47;110;66;54;47;49;112;112;98;50;107;49;47;112;49;80;112;112;110;112;112;47;49;80;49;80;98;80;112;49;47;54;80;80;47;78;66;50;78;51;47;82;51;75;50;82;32;119;32;45;32;104;54;32;48;32;50;57], (57)%Z));
+  ([114;110;98;113;49;98;110;114;47;112;112;112;80;107;112;112;112;47;56;47;56;47;56;47;56;47;80;80;80;80;49;80;80;80;47;82;78;66;81;75;66;78;82;32;98;32;75;81;32;45;32;49;32;53], (0, [114;110;98;113;49;98;110;114;47;112;112;112;80;107;112;112;112;47;56;47;56;47;56;47;56;47;80;80;80;80;49;80;80;80;47;82;78;66;81;75;66;78;82;32;98;32;75;81;32;45;32;49;32;53], (10)%Z));
+  ([50;98;113;107;98;110;114;47;114;49;112;49;112;50;112;47;49;112;110;112;52;47;112;51;80;51;47;51;80;49;80;112;49;47;50;78;53;47;80;80;80;49;66;50;80;47;82;49;66;49;75;49;78;82;32;119;32;107;32;45;32;49;32;49;32;32;55], (0, [50;98;113;107;98;110;114;47;114;49;112;49;112;50;112;47;49;112;110;112;52;47;112;51;80;51;47;51;80;49;80;112;49;47;50;78;53;47;80;80;80;49;66;50;80;47;82;49;66;49;75;49;78;82;32;119;32;107;32;45;32;49;32;49], (1)%Z));
+  ([114;110;98;113;50;114;49;47;112;112;112;112;49;107;112;49;47;66;54;112;47;98;50;80;112;112;49;80;47;80;52;80;50;47;82;80;80;53;47;51;80;81;75;80;82;47;49;78;66;51;78;49;32;119;32;45;32;45;32;48;32;49;55], (0, [114;110;98;113;50;114;49;47;112;112;112;112;49;107;112;49;47;66;54;112;47;98;50;80;112;112;49;80;47;80;52;80;50;47;82;80;80;53;47;51;80;81;75;80;82;47;49;78;66;51;78;49;32;119;32;45;32;45;32;48;32;49;55], (33)%Z));
+  ([114;110;98;113;49;98;110;114;47;112;112;112;112;107;49;112;112;47;56;47;52;112;51;47;53;112;49;80;47;51;80;51;82;47;80;80;80;49;80;80;80;49;47;82;78;66;49;75;66;78;49;32;98;32;81;32;45;32;51;32;53], (0, [114;110;98;113;49;98;110;114;47;112;112;112;112;107;49;112;112;47;56;47;52;112;51;47;53;112;49;80;47;51;80;51;82;47;80;80;80;49;80;80;80;49;47;82;78;66;49;75;66;78;49;32;98;32;81;32;45;32;51;32;53], (10)%Z));
+  ([51;114;50;110;114;47;112;50;107;112;49;98;49;47;98;49;112;49;78;51;47;80;50;112;49;112;81;112;47;49;80;54;47;49;80;49;80;51;80;47;50;78;66;49;80;80;49;47;49;82;49;75;49;66;49;82;32;119;32;45;32;45;32;50;32;50;52], (0, [51;114;50;110;114;47;112;50;107;112;49;98;49;47;98;49;112;49;78;51;47;80;50;112;49;112;81;112;47;49;80;54;47;49;80;49;80;51;80;47;50;78;66;49;80;80;49;47;49;82;49;75;49;66;49;82;32;119;32;45;32;45;32;50;32;50;52], (47)%Z));
+  ([52;107;51;47;56;47;56;47;56;47;56;47;56;47;56;47;52;75;51;32;119;32;45;32;45;32;49;32;49], (0, [52;107;51;47;56;47;56;47;56;47;56;47;56;47;56;47;52;75;51;32;119;32;45;32;45;32;49;32;49], (1)%Z));
+  ([114;51;107;50;114;47;49;112;112;110;51;112;47;50;113;49;113;49;110;49;47;56;47;50;113;49;80;112;50;47;54;82;49;47;112;49;112;50;80;80;80;47;49;82;52;75;49;32;119;32;75;107;113;32;45;32;49;32;50], (0, [114;51;107;50;114;47;49;112;112;110;51;112;47;50;113;49;113;49;110;49;47;56;47;50;113;49;80;112;50;47;54;82;49;47;112;49;112;50;80;80;80;47;49;82;52;75;49;32;119;32;75;107;113;32;45;32;49;32;50], (3)%Z));
+  ([52;107;51;47;56;47;56;47;56;47;56;47;56;47;56;47;52;75;51;32;119;32;45;32;45;32;49;48;48;48;48;48;48;32;49], (0, [52;107;51;47;56;47;56;47;56;47;56;47;56;47;56;47;52;75;51;32;119;32;45;32;45;32;49;48;48;48;48;48;48;32;49], (1)%Z));
+  ([11;226;128;128;52;107;51;47;56;47;56;47;56;47;56;47;56;47;56;47;52;75;51;32;119;32;45;32;45;32;48;32;49;226;128;128;11], (0, [52;107;51;47;56;47;56;47;56;47;56;47;56;47;56;47;52;75;51;32;119;32;45;32;45;32;48;32;49], (1)%Z));
+  ([114;110;98;113;107;50;114;47;50;112;112;112;49;98;112;47;112;55;47;80;112;49;78;50;66;49;47;51;80;110;51;47;54;80;80;47;49;80;80;49;80;80;50;47;82;49;81;49;75;66;49;82;32;98;32;75;81;32;45;32;51;32;49;50], (0, [114;110;98;113;107;50;114;47;50;112;112;112;49;98;112;47;112;55;47;80;112;49;78;50;66;49;47;51;80;110;51;47;54;80;80;47;49;80;80;49;80;80;50;47;82;49;81;49;75;66;49;82;32;98;32;75;81;32;45;32;51;32;49;50], (24)%Z));
+  ([51;113;107;98;110;49;47;110;49;112;98;112;51;47;114;112;49;112;49;114;50;47;112;66;49;80;80;50;112;47;53;80;49;78;47;54;112;49;47;80;80;80;66;78;50;80;47;49;82;50;75;50;82], (0, [51;113;107;98;110;49;47;110;49;112;98;112;51;47;114;112;49;112;49;114;50;47;112;66;49;80;80;50;112;47;53;80;49;78;47;54;112;49;47;80;80;80;66;78;50;80;47;49;82;50;75;50;82;32;119;32;45;32;45;32;48;32;49], (1)%Z));
+  ([52;107;51;47;56;47;56;47;56;47;56;47;56;47;56;47;52;75;51;32;119;32], (0, [52;107;51;47;56;47;56;47;56;47;56;47;56;47;56;47;52;75;51;32;119;32;45;32;45;32;48;32;49], (1)%Z));
+  ([114;110;98;50;107;49;114;47;50;112;112;50;98;49;47;112;55;47;80;54;112;47;82;112;49;80;49;66;80;80;47;49;113;80;49;112;82;50;47;49;80;49;78;80;51;47;52;81;66;75;49;32;98;32;45;32;45;32;48;32;50;55], (0, [114;110;98;50;107;49;114;47;50;112;112;50;98;49;47;112;55;47;80;54;112;47;82;112;49;80;49;66;80;80;47;49;113;80;49;112;82;50;47;49;80;49;78;80;51;47;52;81;66;75;49;32;98;32;45;32;45;32;48;32;50;55], (54)%Z));
+  ([114;51;107;50;114;47;49;112;112;110;51;112;47;50;113;49;113;49;110;49;47;56;47;50;113;49;80;112;50;47;54;82;49;47;112;49;112;50;80;80;80;47;49;82;52;75;49;32;119;32;75;81;107;113;32;45;32;49;32;50], (0, [114;51;107;50;114;47;49;112;112;110;51;112;47;50;113;49;113;49;110;49;47;56;47;50;113;49;80;112;50;47;54;82;49;47;112;49;112;50;80;80;80;47;49;82;52;75;49;32;119;32;75;81;107;113;32;45;32;49;32;50], (3)%Z));
+  ([51;114;52;47;112;98;49;112;49;107;49;112;47;110;112;112;49;112;49;110;49;47;49;113;80;50;112;66;49;47;80;80;51;98;50;47;82;49;78;80;80;49;80;49;47;55;80;47;51;81;75;66;78;82], (0, [51;114;52;47;112;98;49;112;49;107;49;112;47;110;112;112;49;112;49;110;49;47;49;113;80;50;112;66;49;47;80;80;51;98;50;47;82;49;78;80;80;49;80;49;47;55;80;47;51;81;75;66;78;82;32;119;32;45;32;45;32;48;32;49], (1)%Z));
+  ([114;110;98;113;50;110;114;47;52;112;107;49;112;47;112;112;112;112;50;112;49;47;54;98;49;47;80;55;47;50;78;49;80;49;80;80;47;49;80;80;80;49;80;50;47;82;49;66;49;75;66;78;82;32;98;32;45;32;97;51;32;48;32;49;48], (0, [114;110;98;113;50;110;114;47;52;112;107;49;112;47;112;112;112;112;50;112;49;47;54;98;49;47;80;55;47;50;78;49;80;49;80;80;47;49;80;80;80;49;80;50;47;82;49;66;49;75;66;78;82;32;98;32;45;32;97;51;32;48;32;49;48], (20)%Z));
+  ([49;114;98;51;110;49;47;112;49;98;107;49;114;81;49;47;53;112;50;47;50;110;112;112;112;49;112;47;49;112;78;80;80;78;49;80;47;50;113;66;82;51;47;50;80;51;80;49;47;50;66;75;52;32;98;32;45;32;45;32;55;32;50;56], (0, [49;114;98;51;110;49;47;112;49;98;107;49;114;81;49;47;53;112;50;47;50;110;112;112;112;49;112;47;49;112;78;80;80;78;49;80;47;50;113;66;82;51;47;50;80;51;80;49;47;50;66;75;52;32;98;32;45;32;45;32;55;32;50;56], (56)%Z));
+  ([49;114;98;49;107;98;49;114;47;112;112;49;112;110;112;112;112;47;110;113;112;49;112;51;47;56;47;53;80;50;47;49;80;80;49;80;49;80;49;47;80;50;80;51;80;47;82;78;66;81;75;66;78;82;32;98;32;75;81;107;32;45;32;52;32;55], (0, [49;114;98;49;107;98;49;114;47;112;112;49;112;110;112;112;112;47;110;113;112;49;112;51;47;56;47;53;80;50;47;49;80;80;49;80;49;80;49;47;80;50;80;51;80;47;82;78;66;81;75;66;78;82;32;98;32;75;81;107;32;45;32;52;32;55], (14)%Z));
+  ([49;114;98;51;110;49;47;112;49;98;107;49;114;81;49;47;51;78;110;112;50;47;51;112;112;50;112;47;49;112;49;80;112;78;49;80;47;50;113;66;82;51;47;49;66;80;51;80;49;47;51;75;52;32;98;32;45;32;45;32;51;32;51;48], (0, [49;114;98;51;110;49;47;112;49;98;107;49;114;81;49;47;51;78;110;112;50;47;51;112;112;50;112;47;49;112;49;80;112;78;49;80;47;50;113;66;82;51;47;49;66;80;51;80;49;47;51;75;52;32;98;32;45;32;45;32;51;32;51;48], (60)%Z));
+  ([52;107;51;47;56;47;56;47;56;47;56;47;56;47;56;47;52;75;51;32;119;32;75;81;107;113], (0, [52;107;51;47;56;47;56;47;56;47;56;47;56;47;56;47;52;75;51;32;119;32;75;81;107;113;32;45;32;48;32;49], (1)%Z));
+  ([226;128;168;194;133;52;107;51;47;56;47;56;47;56;47;56;47;56;47;56;47;52;75;51;32;119;32;45;32;45;32;48;32;49;194;133;226;128;168], (0, [52;107;51;47;56;47;56;47;56;47;56;47;56;47;56;47;52;75;51;32;119;32;45;32;45;32;48;32;49], (1)%Z));
+  ([114;110;98;50;107;49;114;47;50;112;112;50;98;112;47;112;78;49;113;52;47;80;112;50;112;51;47;82;50;80;50;80;80;47;52;66;50;82;47;49;80;80;49;80;75;50;47;50;81;50;66;50], (0, [114;110;98;50;107;49;114;47;50;112;112;50;98;112;47;112;78;49;113;52;47;80;112;50;112;51;47;82;50;80;50;80;80;47;52;66;50;82;47;49;80;80;49;80;75;50;47;50;81;50;66;50;32;119;32;45;32;45;32;48;32;49], (1)%Z));
+  ([114;110;98;113;51;114;47;53;107;49;112;47;112;49;112;49;112;49;112;110;47;49;80;49;112;50;98;49;47;49;80;78;49;80;51;47;54;80;80;47;50;80;80;49;80;49;82;47;82;49;66;49;75;66;78;49;32;98;32;45;32;45;32;50;32;49;56], (0, [114;110;98;113;51;114;47;53;107;49;112;47;112;49;112;49;112;49;112;110;47;49;80;49;112;50;98;49;47;49;80;78;49;80;51;47;54;80;80;47;50;80;80;49;80;49;82;47;82;49;66;49;75;66;78;49;32;98;32;45;32;45;32;50;32;49;56], (36)%Z));
+  ([114;110;98;113;107;98;110;114;47;49;112;112;112;112;112;49;112;47;54;112;49;47;112;55;47;56;47;51;80;50;80;49;47;80;80;80;49;80;80;49;80;47;82;78;66;81;75;66;78;82], (0, [114;110;98;113;107;98;110;114;47;49;112;112;112;112;112;49;112;47;54;112;49;47;112;55;47;56;47;51;80;50;80;49;47;80;80;80;49;80;80;49;80;47;82;78;66;81;75;66;78;82;32;119;32;45;32;45;32;48;32;49], (1)%Z));
+  ([114;110;98;113;107;49;110;114;47;112;49;112;112;112;112;49;112;47;49;112;52;81;98;47;56;47;56;47;50;78;49;80;51;47;80;80;80;80;49;80;80;80;47;82;49;66;49;75;66;78;82;32;98;32;75;81;107;113;32;45;32;48;32;52], (0, [114;110;98;113;107;49;110;114;47;112;49;112;112;112;112;49;112;47;49;112;52;81;98;47;56;47;56;47;50;78;49;80;51;47;80;80;80;80;49;80;80;80;47;82;49;66;49;75;66;78;82;32;98;32;75;81;107;113;32;45;32;48;32;52], (8)%Z));
+  ([52;107;51;47;56;47;56;47;56;47;56;47;56;47;56;47;52;75;51;32;124;32;45;32;45;32;55;32;32], (0, [52;107;51;47;56;47;56;47;56;47;56;47;56;47;56;47;52;75;51;32;119;32;45;32;45;32;55;32;49], (1)%Z));
+  ([50;98;113;107;98;110;114;47;114;49;112;49;112;50;112;47;49;112;49;112;52;47;112;51;80;51;47;49;110;49;80;49;112;112;49;47;50;78;51;80;49;47;80;80;80;49;66;50;80;47;82;49;66;49;75;49;78;82;32;119;32;107;32;45;32;48;32;49;54], (0, [50;98;113;107;98;110;114;47;114;49;112;49;112;50;112;47;49;112;49;112;52;47;112;51;80;51;47;49;110;49;80;49;112;112;49;47;50;78;51;80;49;47;80;80;80;49;66;50;80;47;82;49;66;49;75;49;78;82;32;119;32;107;32;45;32;48;32;49;54], (31)%Z));
+  ([114;49;113;50;98;50;47;50;112;81;107;50;114;47;110;55;47;112;112;52;112;112;47;80;80;112;78;80;112;98;80;47;56;47;81;51;80;80;49;82;47;82;49;66;49;75;49;78;66;32;98;32;81;113;32;45;32;48;32;50;49], (0, [114;49;113;50;98;50;47;50;112;81;107;50;114;47;110;55;47;112;112;52;112;112;47;80;80;112;78;80;112;98;80;47;56;47;81;51;80;80;49;82;47;82;49;66;49;75;49;78;66;32;98;32;81;113;32;45;32;48;32;50;49], (42)%Z));
+  ([113;110;50;107;49;110;49;47;49;114;49;112;112;49;98;49;47;52;114;51;47;49;112;112;50;112;112;49;47;112;51;80;49;80;112;47;80;50;80;75;80;49;80;47;49;80;80;53;47;82;78;66;50;66;78;82;32;98;32;45;32;45;32;55;32;50;53], (0, [113;110;50;107;49;110;49;47;49;114;49;112;112;49;98;49;47;52;114;51;47;49;112;112;50;112;112;49;47;112;51;80;49;80;112;47;80;50;80;75;80;49;80;47;49;80;80;53;47;82;78;66;50;66;78;82;32;98;32;45;32;45;32;55;32;50;53], (50)%Z));
+  ([114;49;98;49;107;98;50;47;112;50;112;110;50;112;47;110;112;112;49;112;51;47;51;113;49;112;66;49;47;80;49;80;50;80;50;47;82;80;50;80;49;80;49;47;51;80;51;80;47;49;78;49;81;75;66;78;82;32;124], (0, [114;49;98;49;107;98;50;47;112;50;112;110;50;112;47;110;112;112;49;112;51;47;51;113;49;112;66;49;47;80;49;80;50;80;50;47;82;80;50;80;49;80;49;47;51;80;51;80;47;49;78;49;81;75;66;78;82;32;119;32;45;32;45;32;48;32;49], (1)%Z));
+  ([52;107;51;47;56;47;56;47;56;47;56;47;56;47;56;47;52;75;51;32;119;32;45;32;45;32;48;32;49;48;48], (0, [52;107;51;47;56;47;56;47;56;47;56;47;56;47;56;47;52;75;51;32;119;32;45;32;45;32;48;32;49;48;48], (199)%Z));
+  ([114;110;98;113;51;114;47;112;112;112;112;49;107;112;112;47;56;47;51;110;112;112;50;47;80;98;66;49;80;50;80;47;82;80;80;53;47;51;80;49;80;80;49;47;49;78;66;81;75;49;78;82], (0, [114;110;98;113;51;114;47;112;112;112;112;49;107;112;112;47;56;47;51;110;112;112;50;47;80;98;66;49;80;50;80;47;82;80;80;53;47;51;80;49;80;80;49;47;49;78;66;81;75;49;78;82;32;119;32;45;32;45;32;48;32;49], (1)%Z));
+  ([114;110;98;113;107;98;110;114;47;112;112;112;112;112;50;112;47;53;112;112;49;47;56;47;56;47;78;54;78;47;80;80;80;80;80;80;80;80;47;82;49;66;81;75;66;49;82;32;119;32;75;81;107;113;32;45;32;48;32;51], (0, [114;110;98;113;107;98;110;114;47;112;112;112;112;112;50;112;47;53;112;112;49;47;56;47;56;47;78;54;78;47;80;80;80;80;80;80;80;80;47;82;49;66;81;75;66;49;82;32;119;32;75;81;107;113;32;45;32;48;32;51], (5)%Z));
+  ([107;55;47;56;47;56;47;56;47;56;47;56;47;56;47;75;55;32], (0, [107;55;47;56;47;56;47;56;47;56;47;56;47;56;47;75;55;32;119;32;45;32;45;32;48;32;49], (1)%Z));
+  ([52;107;51;47;56;47;56;47;56;47;56;47;56;47;52;114;51;47;52;75;51;32;124;32;45;32;45;32;48;32;49], (0, [52;107;51;47;56;47;56;47;56;47;56;47;56;47;52;114;51;47;52;75;51;32;119;32;45;32;45;32;48;32;49], (1)%Z));
+  ([52;107;51;47;56;47;56;47;56;47;56;47;56;47;56;47;52;75;51;32;98;32;75;81;113;32;45;32;48;32;49], (0, [52;107;51;47;56;47;56;47;56;47;56;47;56;47;56;47;52;75;51;32;98;32;75;81;113;32;45;32;48;32;49], (2)%Z));
+  ([114;98;98;51;113;114;47;53;110;49;112;47;112;49;112;49;112;107;112;49;47;49;80;110;112;80;51;47;49;80;51;80;80;49;47;55;80;47;82;78;80;80;51;82;47;50;66;49;75;66;78;49;32;98;32;45;32;45;32;48;32;50;53], (0, [114;98;98;51;113;114;47;53;110;49;112;47;112;49;112;49;112;107;112;49;47;49;80;110;112;80;51;47;49;80;51;80;80;49;47;55;80;47;82;78;80;80;51;82;47;50;66;49;75;66;78;49;32;98;32;45;32;45;32;48;32;50;53], (50)%Z));
+  ([114;110;98;50;107;49;114;47;51;112;50;98;49;47;112;55;47;80;49;112;52;112;47;82;112;49;80;49;66;80;80;47;49;113;80;49;112;82;50;47;49;80;49;78;80;51;47;52;81;66;75;49;32;119;32;45;32;99;54;32;48;32;50;56], (0, [114;110;98;50;107;49;114;47;51;112;50;98;49;47;112;55;47;80;49;112;52;112;47;82;112;49;80;49;66;80;80;47;49;113;80;49;112;82;50;47;49;80;49;78;80;51;47;52;81;66;75;49;32;119;32;45;32;99;54;32;48;32;50;56], (55)%Z));
+  ([114;50;113;51;114;47;110;52;107;49;98;47;49;112;112;52;110;47;112;50;112;112;98;112;49;47;50;66;49;80;80;112;49;47;98;80;52;80;49;47;78;49;80;80;78;50;80;47;82;49;66;49;75;49;82;49;32;119;32;45;32;45;32;48;32;50;48], (0, [114;50;113;51;114;47;110;52;107;49;98;47;49;112;112;52;110;47;112;50;112;112;98;112;49;47;50;66;49;80;80;112;49;47;98;80;52;80;49;47;78;49;80;80;78;50;80;47;82;49;66;49;75;49;82;49;32;119;32;45;32;45;32;48;32;50;48], (39)%Z));
+  ([52;107;51;47;56;47;52;80;51;47;52;112;51;47;52;80;51;47;52;112;51;47;56;47;52;75;51;32;119;32;45;32;101;54], (15, [], (0)%Z));
+  ([52;107;51;47;56;47;56;47;56;47;56;47;56;47;56;47;52;75;51;32;119;32;45;32;97;54], (15, [], (0)%Z));
+  ([52;107;51;47;56;47;52;80;51;47;52;112;51;47;52;80;51;47;52;112;51;47;56;47;52;75;51;32;98;32;45;32;97;51], (15, [], (0)%Z));
+  ([51;113;107;98;110;49;47;110;49;112;98;112;51;47;114;112;49;112;49;114;50;47;112;66;49;80;80;50;112;47;53;80;49;78;47;52;66;49;112;49;47;80;80;80;49;78;50;80;47;49;82;50;75;50;82;32;119;32;75;81;107;113;32;101;54], (15, [], (0)%Z));
+  ([52;107;51;47;56;47;56;47;56;47;56;47;56;47;56;47;52;75;51;32;98;32;75;81;32;104;54;32;48;32;49], (15, [], (0)%Z));
+  ([114;110;98;51;114;49;47;112;112;49;112;49;107;112;49;47;66;113;53;112;47;98;50;80;112;112;49;80;47;80;80;112;50;80;81;49;47;82;49;80;51;75;49;47;51;80;50;80;82;47;49;78;66;51;78;49;32;98;32;45;32;101;54;32;32;43;48;32;43;53], (15, [], (0)%Z));
+  ([52;107;51;47;56;47;52;80;51;47;52;112;51;47;52;80;51;47;52;112;51;47;56;47;52;75;51;32;119;32;45;32;104;54], (15, [], (0)%Z));
+  ([114;110;98;113;107;98;110;114;47;112;112;112;112;49;112;112;112;47;56;47;52;112;51;47;52;80;51;47;56;47;80;80;80;80;49;80;80;80;47;82;78;66;81;75;66;78;82;32;124;32;75;81;107;113;32;97;54], (15, [], (0)%Z));
+  ([52;107;51;47;56;47;56;47;56;47;56;47;56;47;56;47;52;75;51;32;119;32;45;32;101;51], (15, [], (0)%Z));
+  ([114;110;98;113;107;98;110;114;47;112;112;112;112;49;112;112;112;47;56;47;52;112;51;47;52;80;51;47;56;47;80;80;80;80;49;80;80;80;47;82;78;66;81;75;66;78;82;32;119;32;75;81;107;113;32;97;51;32;48;32;50], (15, [], (0)%Z));
+  ([52;107;51;47;56;47;56;47;56;47;56;47;56;47;56;47;52;75;51;32;119;32;45;32;104;54], (15, [], (0)%Z));
+  ([52;107;51;47;56;47;56;47;56;47;56;47;56;47;56;47;52;75;51;32;119;32;45;32;101;54], (15, [], (0)%Z));
+  ([52;107;51;47;56;47;52;80;51;47;52;112;51;47;52;80;51;47;52;112;51;47;56;47;52;75;51;32;119;32;45;32;97;54], (15, [], (0)%Z));
+  ([52;107;51;47;56;47;52;80;51;47;52;112;51;47;52;80;51;47;52;112;51;47;56;47;52;75;51;32;98;32;45;32;97;54], (15, [], (0)%Z));
+  ([226;128;137;226;128;136;32;9], (1, [], (0)%Z));
+  ([227;128;129;32;52;107;51;47;56;47;56;47;56;47;56;47;56;47;56;47;52;75;51;32;119;32;45;32;45;32;48;32;49;32;227;128;129], (1, [], (0)%Z));
+  ([224;130;133], (1, [], (0)%Z));
+  ([226;128;138], (1, [], (0)%Z));
+  ([225;154;129], (1, [], (0)%Z));
+  ([120;32;119;32;45;32;45;32;48;32;49], (1, [], (0)%Z));
+  ([192;160], (1, [], (0)%Z));
+  ([13], (1, [], (0)%Z));
+  ([128], (1, [], (0)%Z));
+  ([32], (1, [], (0)%Z));
+  ([57;32;119;10], (1, [], (0)%Z));
+  ([194], (1, [], (0)%Z));
+  ([57;32;119;124;98;32;107;75;32;69;51;32;32;45;57;50;50;51;51;55;50;48;51;54;56;53;52;55;55;53;56;48;56], (1, [], (0)%Z));
+  ([45;32;119;119;32;75;81;113;32;101;48], (1, [], (0)%Z));
+  ([56], (6, [], (0)%Z));
+  ([114;110;49;113;49;98;50;47;50;112;49;107;49;112;114;47;49;112;51;110;50;47;112;78;53;112;47;80;49;112;49;80;112;98;80;47;49;80;54;47;51;81;80;80;49;82;47;82;49;66;75;66;78;49;32;98;32;81;32;45;32;48;32;49;54], (6, [], (0)%Z));
+  ([114], (6, [], (0)%Z));
+  ([107;55;47;56;47;56;47;56;47;56;47;56;47;56;47;75;54;32;32], (6, [], (0)%Z));
+  ([51;113;107;98;110;49;47;110;49;112;49;112;51;47;114;112;49;112;51;114;47;112;51;80;98;49;112;47;50;66;80;49;80;112;32;32;78;47;50;78;53;47;80;80;80;66;51;80;47;49;82;50;75;50;82;32;119;32;45;32;45;32;50;32;50;50], (6, [], (0)%Z));
+  ([114;49;98;50;107;110;114;47;112;49;112;110;112;49;98;49;47;53;112;112;112;47;49;112;54;47;49;80;113;49;112;51;47;80;51;80;50;80;47;82;50;80;49;80;80;49;47;78;66;81;75;66;49;82;32;119;32;75;32;45;32;49;32;49;51], (6, [], (0)%Z));
+  ([114;110;98;50;107;49;114;47;50;112;112;50;98;112;47;112;78;49;113;52;47;80;51;112;51;47;82;112;49;80;49;66;80;80;47;55;82;47;49;80;80;49;80;75;50;47;81;50;66;32;98;32;45;32;45;32;49;32;50;49], (6, [], (0)%Z));
+  ([50;98;113;107;98;110;114;47;114;49;112;112;112;50;112;47;66;112;54;47;112;51;80;112;112;49;47;49;110;49;80;52;47;50;78;51;80;49;47;80;80;80;50;80;49;80;47;82;49;66;81;75;49;82;32;119;107;32;45;32;9;32;49;51], (6, [], (0)%Z));
+  ([114;49;98;113;107;50;114;47;112;112;50;98;112;112;112;47;50;110;49;112;110;50;47;50;112;112;52;47;51;80;49;66;50;47;50;80;49;80;78;50;47;80;80;49;78;49;80;80;80;47;82;50;81;75;66;82;32;119;32;75;81;107;113;32;99;54;32;48;32;55], (6, [], (0)%Z));
+  ([114;51;107;50;114;47;49;112;112;110;51;112;47;50;113;49], (6, [], (0)%Z));
+  ([114;110;98;113;107;98;110;114;47;112;49;112;112;112;112;49;112;47;49;32;32;52;112;47;56;47;54;81;49;47;50;78;49;80;51;47;80;80;80;80;49;80;80;80;47;82;49;66;49;75;66;78;82;52;32;98;32;75;81;107;113;32;45;32;49;32;51], (6, [], (0)%Z));
+  ([114;51;107;50;114;47;49], (6, [], (0)%Z));
+  ([114;51;107;50;114;47;49;112;112;110;51;112;47;50;113;49;113;49;110;49;47;56;47;50;113;49;80;112;50], (6, [], (0)%Z));
+  ([114;110;98;50;107;49;114;47;50;112;112;50;98;112;47;112;54;113;47;80;112;49;78;32;32;51;47;82;50;80;50;80;80;47;52;66;50;82;47;49;80;80;49;80;110;50;47;50;81;49;75;66;50;32;98;32;45;32;45;32;52;32;49;56], (6, [], (0)%Z));
+  ([114;110;98;113;107;98;110;114;47;112;112;112;112;49;112;112;112;47;56;47;52;112;51;47;52;80;51;47;56;47;80;80;80;80;49;80;80;80;47;82;78;66;81;75;66;78;82;32;124;32;75;81;107;113;32;45;45], (9, [], (0)%Z));
+  ([107;55;47;52;52;47;56;47;56;47;56;47;56;47;56;47;75;55;32;119;32;32;96;51;32;45;52;54;49;49;54;56;54;48;49;56;52;50;55;51;56;55;57;48;52;32;45], (9, [], (0)%Z));
+  ([114;110;98;113;107;98;110;114;47;112;49;112;112;112;49;112;112;47;53;112;50;47;49;112;54;47;80;55;47;52;80;51;47;49;80;80;80;49;80;80;80;47;82;78;66;81;75;66;78;82;32;119;32;81;75], (9, [], (0)%Z));
+  ([114;49;98;107;49;98;110;114;47;112;51;112;49;112;112;47;50;112;112;52;47;50;78;50;112;50;47;80;112;113;78;52;47;49;80;80;80;51;80;47;52;80;80;80;49;47;49;82;66;81;75;66;49;82;32;119;32;45;32;45;48;32;49;52], (9, [], (0)%Z));
+  ([49;114;113;49;107;49;110;49;47;51;112;112;49;98;49;47;110;52;112;49;114;47;49;112;112;51;112;49;47;112;51;80;66;80;112;47;51;80;49;80;49;80;47;80;80;80;49;75;51;47;82;78;51;66;78;82;32;119;32;107;75;32;101;54;32;217;163;32;49], (9, [], (0)%Z));
+  ([114;110;98;50;107;49;114;47;51;112;50;98;49;47;112;55;47;80;49;112;52;112;47;82;112;49;80;50;80;80;47;49;113;80;49;112;82;50;47;49;80;49;78;80;50;66;47;52;81;66;75;49;32;98;32;45;32;45;75;32;49;32;50;56], (9, [], (0)%Z));
+  ([114;110;98;113;107;98;110;114;47;112;112;112;112;49;112;112;112;47;56;47;52;112;51;47;52;80;51;47;56;47;80;80;80;80;49;80;80;80;47;82;78;66;81;75;66;78;82;32;98;32;75;81;107;113;32;101;195;32;48;32;50], (9, [], (0)%Z));
+  ([49;114;98;113;49;98;49;114;47;112;112;112;107;112;49;112;112;47;110;52;110;49;80;47;56;47;49;81;49;80;49;112;50;47;56;47;80;80;49;80;80;80;80;49;47;82;78;66;49;75;66;80;82;32;98;32;81;80;32;45;32;48;32;57], (9, [], (0)%Z));
+  ([52;107;51;47;56;47;56;47;56;47;56;47;56;47;56;47;52;75;51;32;98;32;81;75;32;45;32;48;32;49], (9, [], (0)%Z));
+  ([52;107;51;47;56;47;56;47;56;47;56;47;56;47;56;47;52;75;51;32;98;32;75;45;32;45;32;48;32;49], (9, [], (0)%Z));
+  ([52;107;51;47;56;47;56;47;56;47;56;47;56;47;56;47;52;75;51;32;98;32;75;81;32;96;51;32;48;32;49], (9, [], (0)%Z));
+  ([114;51;107;50;114;47;49;112;112;110;51;112;47;50;113;49;113;49;110;49;47;56;47;50;113;49;80;112;50;47;54;82;49;47;112;49;112;50;80;80;80;47;49;82;52;75;49;32;119;32;81;75;32;45;32;49;32;50], (9, [], (0)%Z));
+  ([114;110;49;113;49;98;50;47;50;112;98;107;49;112;49;47;49;112;51;110;49;114;47;112;50;112;51;112;47;80;49;80;49;112;112;80;80;47;49;80;49;80;52;47;51;81;80;80;49;82;47;82;78;66;49;75;66;78;49;32;124;32;81;32;45;45], (9, [], (0)%Z));
+  ([52;107;51;47;56;47;56;47;56;47;56;47;56;47;56;47;52;75;51;32;98;32;107;75;32;45;32;48;32;49], (9, [], (0)%Z));
+  ([114;110;98;113;107;98;55;114;47;112;49;112;112;112;49;112;112;47;53;112;50;47;49;112;54;47;80;55;47;52;80;51;47;49;80;80;80;49;80;80;80;227;47;82;78;66;81;75;66;78;82;32;119;32;75;81;107;113;32;45;32;48;32;51], (2, [], (0)%Z));
+  ([114;50;113;51;114;47;112;112;112;52;112;49;110;50;107;50;80;47;54;112;49;47;49;98;66;49;80;49;112;50;47;51;80;49;80;50;47;49;98;66;75;49;80;51;47;49;78;49;78;49;66;82;49;32;119;32;45;32;45;32;50;32;51;48], (2, [], (0)%Z));
+  ([114;49;98;113;107;98;110;114;47;112;112;112;112;81;112;112;112;47;110;55;47;56;47;56;49;80;52;80;49;47;80;49;80;80;80;80;49;80;47;78;66;81;75;66;78;82;32;98;32;75;81;107;113;32;45;32;48;32;50], (2, [], (0)%Z));
+  ([114;110;98;113;107;98;110;114;47;112;112;112;112;112;112;112;112;47;56;47;56;47;56;47;49;80;54;47;80;49;80;80;80;80;98;80;80;47;82;78;66;81;75;66;78;82;32;98;105;75;81;107;113;32;45;75;48;32;49], (2, [], (0)%Z));
+  ([114;98;98;51;113;114;47;53;110;107;112;47;112;49;112;49;112;49;112;49;47;49;80;110;112;80;51;47;49;80;51;80;80;49;47;55;80;47;82;78;80;80;78;50;82;47;50;107;66;49;75;66;50;32;98;32;45;32;45;32;50;32;50;54], (2, [], (0)%Z));
+  ([114;49;98;51;113;114;47;49;110;98;51;107;98;112;47;50;112;49;112;49;112;49;47;49;112;49;78;50;80;49;47;49;80;51;80;50;47;51;66;51;80;47;82;78;80;80;51;82;47;50;66;49;75;51;48;32;119;32;45;32;124;32;48;32;51;49], (2, [], (0)%Z));
+  ([114;110;50;98;113;51;114;47;112;112;112;112;49;107;112;112;47;56;47;98;66;49;80;112;112;49;80;47;80;52;80;50;47;82;80;80;53;47;51;80;49;75;80;82;47;49;78;66;81;50;78;49;32;119;32;45;32;45;32;51;32;49;53], (2, [], (0)%Z));
+  ([114;49;98;107;49;98;110;114;47;112;50;112;112;51;47;110;52;112;112;49;47;82;49;112;52;112;47;49;112;50;80;54;80;49;80;47;50;113;53;47;49;80;80;80;81;49;80;49;47;49;78;66;49;75;66;78;82;32;119;32;45;32;45;32;50;32;49;80], (2, [], (0)%Z));
+  ([57;110;98;113;107;50;114;47;112;49;112;112;112;112;98;112;47;49;112;51;110;50;47;104;52;78;49;112;49;47;80;50;80;52;47;50;78;53;47;49;80;80;49;80;80;80;80;47;82;49;66;81;75;66;49;82;32;98;32;75;81;107;113;32;45;32;51;32], (2, [], (0)%Z));
+  ([114;49;98;51;113;114;47;49;110;98;50;110;107;112;47;112;49;112;49;112;49;112;49;47;49;80;49;112;80;51;47;49;80;51;80;80;49;47;50;78;52;80;47;82;78;80;80;56;82;47;50;66;49;75;66;50;32;119;32;45;32;45;32;32;50;56], (2, [], (0)%Z));
+  ([114;110;98;113;107;98;110;114;47;112;49;112;81;112;112;112;112;112;47;56;47;49;112;54;47;56;47;52;80;51;47;80;80;80;80;49;80;80;80;47;82;78;52;66;81;75;66;78;82;32;119;32;75;81;107;113;32;98;54;32;48;32;50], (2, [], (0)%Z));
+  ([57;47;56;47;56;47;56;47;56;47;56;47;56;47;107;54;75;32;119;98;32;75;81;107;113;75;32;96;51;32;45;57;50;50;51;51;55;50;48;51;54;56;53;52;55;55;53;56;48;55], (2, [], (0)%Z));
+  ([114;110;98;113;50;110;114;47;52;112;107;49;112;47;112;112;112;112;50;112;49;47;54;98;49;47;80;51;55;47;50;78;49;80;49;80;80;47;49;80;80;80;49;80;50;47;82;49;66;49;75;66;78;82;32;98;32;45;32;97;51;32;48;32;49;48], (2, [], (0)%Z));
+  ([51;113;107;98;110;49;47;110;49;112;98;112;114;50;47;114;112;53;49;112;52;47;112;66;49;80;80;50;112;47;53;80;49;78;47;52;66;49;112;49;47;80;80;80;49;78;50;80;47;49;82;50;75;50;82;32;119;32;45;32;45;32;52;32;50;56], (2, [], (0)%Z));
+  ([114;81;98;113;107;98;49;114;47;112;49;112;49;112;50;112;47;110;112;53;110;47;51;112;50;112;49;47;52;80;49;112;49;47;78;51;80;81;49;47;80;80;80;80;75;80;49;80;47;82;49;66;50;66;78;82;32;119;32;107;113;32;45;32;48;32;57], (3, [], (0)%Z));
+  ([114;49;98;113;49;98;49;114;47;112;112;112;49;107;49;112;112;47;55;80;47;52;78;51;47;110;50;80;49;112;80;49;47;49;80;54;47;50;75;80;80;80;82;47;49;78;66;50;66;50;32;98;32;45;32;45;32;48;32;50;48], (3, [], (0)%Z));
+  ([114;52;98;50;47;113;49;112;49;107;51;47;110;54;114;47;49;112;110;51;112;47;80;81;49;78;80;112;98;53;80;47;53;80;50;47;52;80;49;66;82;47;82;49;66;50;75;97;78;49;32;98;32;45;32;45;32;50;32;50;54], (3, [], (0)%Z));
+  ([114;110;98;113;49;107;49;114;47;50;112;112;112;49;98;112;47;112;55;47;80;112;80;50;66;49;47;51;66;110;49;80;49;47;55;80;47;49;80;80;49;80;80;50;47;82;49;81;49;75;66;49;82;32;98;32;75;81;32;45;32;48;32;49;51], (3, [], (0)%Z));
+  ([49;114;98;113;107;98;110;114;47;112;112;49;112;49;112;112;112;47;110;49;112;49;112;51;47;56;47;53;80;50;47;49;80;80;49;80;49;80;49;47;80;50;51;80;47;82;78;66;81;75;66;78;82;32;98;32;75;81;107;32;102;51;32;48;32;53], (3, [], (0)%Z));
+  ([114;49;98;113;49;98;49;114;47;112;112;107;50;112;112;47;52;112;50;80;47;51;110;52;47;51;80;49;112;80;49;47;49;80;51;78;50;47;80;50;80;80;80;82;49;47;110;78;66;75;49;66;50;32;98;32;45;32;45;32;49;32;49;53;133], (3, [], (0)%Z));
+  ([50;98;113;107;98;110;114;47;114;112;112;112;112;112;49;112;47;110;55;47;112;53;112;49;47;51;80;80;51;47;54;80;49;47;80;80;75;49;80;49;80;47;82;78;66;81;49;66;78;82;32;119;32;107;32;45;32;49;32;54], (3, [], (0)%Z));
+  ([114;110;98;107;49;110;114;47;112;50;112;112;50;112;47;49;114;112;112;51;112;49;47;54;98;49;47;56;47;50;78;49;80;49;80;49;47;80;80;80;80;75;80;49;80;47;82;49;66;50;66;78;82;32;98;32;107;113;32;45;32;49;32;55], (3, [], (0)%Z));
+  ([114;110;98;113;107;112;114;47;52;112;50;112;47;112;112;112;51;112;110;47;49;78;49;112;50;98;49;47;80;80;54;47;52;80;49;80;80;47;50;80;80;49;80;50;47;82;49;66;49;75;66;78;82;32;98;32;45;32;45;32;48;226;128;131;32;49;51], (3, [], (0)%Z));
+  ([114;110;98;50;107;47;49;114;47;50;112;112;50;98;112;47;112;78;50;113;51;47;80;112;50;112;51;47;82;50;80;50;80;80;47;52;66;50;82;47;49;80;80;49;80;110;50;195;164;50;81;49;75;50;32;98;32;45;32;45;32;54;32;49;57], (3, [], (0)%Z));
+  ([114;110;98;113;51;114;47;112;112;112;112;49;107;112;112;47;56;47;51;110;112;112;50;47;80;98;66;49;80;50;80;47;82;80;80;47;51;80;49;80;80;49;47;49;99;66;81;75;49;78;82;32;119;32;75;32;45;51;51;32;56], (3, [], (0)%Z));
+  ([51;114;51;47;112;54;112;47;98;112;112;112;112;107;49;98;47;49;113;80;49;110;112;50;47;80;80;159;54;47;82;50;80;80;49;80;66;47;78;51;75;50;12;47;50;81;51;78;82;32;119;32;45;32;45;32;48;32;51;49], (3, [], (0)%Z));
+  ([114;110;98;113;107;50;114;47;112;49;112;112;112;112;98;112;47;49;112;51;110;50;47;52;78;49;112;49;47;80;50;80;52;47;50;78;53;47;49;80;80;49;80;80;80;47;82;49;66;81;75;66;49;82;32;98;32;75;81;107;113;32;45;32;51;32;53], (3, [], (0)%Z));
+  ([114;50;110;114;47;112;50;107;112;49;98;49;47;50;112;49;78;51;47;80;98;49;112;49;112;81;112;47;49;80;54;47;49;80;49;80;50;80;80;47;51;66;49;80;50;47;49;82;49;75;78;66;49;82;32;119;32;45;32;45;32;51;32;50;54], (3, [], (0)%Z));
+  ([107;55;47;56;47;56;47;56;47;56;47;56;47;56;47;56;32;195;164;32;75;81;113;32;69;51;32;45;52;54;49;49;54;56;54;48;49;56;52;50;55;51;56;55;57;48;52], (7, [], (0)%Z));
+  ([107;55;47;56;47;56;47;56;47;56;47;56;47;56;47;56;32;119;98;32;113;32;101;195;32;45;49;32;49;32;43;53], (7, [], (0)%Z));
+  ([107;55;47;56;47;56;47;56;47;56;47;56;47;56;47;75;75;54;32;119;32;45;32;45;32;48;32;49], (7, [], (0)%Z));
+  ([52;82;51;47;56;47;56;47;56;47;56;47;56;47;56;47;52;75;51;32;98;32;45;32;45;32;57;57;32;49;9;48], (7, [], (0)%Z));
+  ([107;107;54;47;56;47;56;47;56;47;56;47;56;47;56;47;75;55;32;87;32;32;69;51;32;57;57;57;57;57;57;57;57;57;57;57;57;57;57;57;57;57;57;57;57], (7, [], (0)%Z));
+  ([114;110;98;113;107;98;107;114;47;112;112;112;112;112;112;50;47;54;112;49;47;55;112;47;56;47;51;80;50;80;80;47;80;80;80;49;80;80;50;47;82;78;66;81;75;66;78;82;32;98;226;128;131;75;81;107;113;32;45;32;48;160;32;51], (7, [], (0)%Z));
+  ([107;107;54;47;56;47;56;47;56;47;56;47;56;47;56;47;75;55;32;45], (7, [], (0)%Z));
+  ([56;47;56;47;56;47;56;47;56;47;56;47;56;47;56;32;87;32;75;45;32;32;43;32;43;53], (7, [], (0)%Z));
+  ([114;110;98;113;107;98;110;114;47;112;112;112;112;112;112;112;112;47;56;47;56;47;55;80;47;56;47;80;80;80;80;80;80;80;49;47;82;78;98;66;81;66;78;82;32;98;32;75;107;113;32;104;51;32;48;32;49], (7, [], (0)%Z));
+  ([107;55;47;56;47;56;47;56;47;56;47;56;47;56;47;56;32], (7, [], (0)%Z));
+  ([56;47;56;47;56;47;56;47;56;47;56;47;56;47;56;32;119;32;45;32;45;32;48;32;49], (7, [], (0)%Z));
+  ([114;49;98;113;49;98;49;114;47;112;112;112;107;112;49;112;112;47;110;52;110;49;80;47;51;112;52;47;49;81;51;112;50;47;50;80;53;47;80;80;49;80;80;80;80;82;47;52;82;78;66;49;32;75;66;78;49;32;98;32;81;32;45;32;51;32;55], (7, [], (0)%Z));
+  ([107;107;54;47;56;47;56;47;56;47;56;47;56;47;56;47;75;55;32;119;10;32;75;81;107;113;45], (7, [], (0)%Z));
+  ([107;55;47;56;47;56;47;56;47;56;47;56;47;56;47;75;75;54], (7, [], (0)%Z));
+  ([226;128;167;226;128;167;52;107;51;47;56;47;56;47;56;47;56;47;56;47;56;47;52;75;51;226;128;167], (4, [], (0)%Z));
+  ([31;194;134;52;107;51;47;56;47;56;47;56;47;56;47;56;47;56;47;52;75;51;32;119;32;45;32;45;32;48;32;49;194;134;31], (4, [], (0)%Z));
+  ([226;128;139;227;128;128;52;107;51;47;56;47;56;47;56;47;56;47;56;47;56;47;52;75;51;32;119;32;45;32;45;32;48;32;49;227;128;128;226;128;139], (4, [], (0)%Z));
+  ([114;49;98;113;49;98;49;114;47;112;112;112;50;112;112;99;47;52;112;50;80;47;51;110;52;47;51;80;49;112;80;78;47;49;110;54;47;80;50;80;80;80;82;49;47;49;78;66;75;49;66;50;32;98;32;45;32;45;32;49;32;49;54], (4, [], (0)%Z));
+  ([114;110;227;98;113;51;114;47;53;107;49;47;112;49;112;49;112;49;112;110;47;49;112;49;112;50;98;49;47;80;80;78;49;80;51;47;54;80;80;47;50;80;80;49;80;50;47;82;49;66;49;75;66;78;82;32;98;32;45;32;45;32;50;32;49;54], (4, [], (0)%Z));
+  ([114;11;98;113;107;98;110;114;47;112;112;112;49;112;49;112;112;47;56;47;51;112;49;112;49;80;133;56;47;50;80;47;80;80;49;80;80;80;80;49;47;82;78;66;81;75;66;78;82;32;98;32;75;81;107;113;32;45;32;48;32;51], (4, [], (0)%Z));
+  ([114;50;110;51;194;133;47;112;51;107;110;50;47;53;98;112;49;47;49;112;53;112;47;12;80;50;112;112;98;49;47;80;51;80;66;49;80;47;82;66;49;80;49;75;49;82;47;49;78;54;32;98;32;45;32;45;13;49;32;51;48], (4, [], (0)%Z));
+  ([240;128;128;133;194;134;52;107;51;47;56;47;56;47;56;47;56;47;56;47;56;47;52;75;51;32;119;32;45;32;45;32;48;32;49;194;134;240;128;128;133], (4, [], (0)%Z));
+  ([114;110;98;113;107;98;110;49;133;47;50;112;112;112;50;114;47;112;112;51;112;112;49;47;55;112;47;56;47;78;50;80;66;80;80;80;195;164;47;80;80;80;81;80;51;47;82;51;75;66;78;82;32;98;32;75;81;113;45;32;51;32;55], (4, [], (0)%Z));
+  ([114;50;110;107;50;114;47;112;227;98;49;110;98;49;47;49;81;52;112;49;47;49;112;53;112;47;49;80;50;112;112;80;49;47;80;51;80;66;49;80;47;82;50;80;75;50;82;47;49;78;66;53;32;98;32;45;32;45;32;49;32;50], (4, [], (0)%Z));
+  ([114;110;98;50;107;50;47;112;50;112;113;51;47;112;53;114;112;47;80;50;80;80;112;112;80;47;80;49;112;50;80;50;47;82;239;191;189;49;80;50;81;49;75;47;54;80;82;47;49;78;66;51;78;49;32;98;32;45;32;45;32;52;32;51;48], (4, [], (0)%Z));
+  ([114;110;98;107;49;98;110;114;47;112;50;112;112;49;112;112;47;53;112;50;47;50;112;53;47;49;112;53;152;47;52;80;51;47;113;80;80;80;75;80;80;49;47;82;78;66;81;49;66;78;82;32;119;32;45;32;120;32;52;32;56], (4, [], (0)%Z));
+  ([120;107;55;47;56;47;56;47;56;47;56;47;56;47;56;47;75;55;32;119;10;32;81;75;32;104;56;32;49;50;51;52;53;54;55;56;57;48;49;50;51;52;53;54;55;56;57;48], (4, [], (0)%Z));
+  ([52;107;51;47;56;47;56;47;56;47;56;47;56;47;56;47;52;75;51;225;154;128;119;32;45;32;45;32;48;32;49], (4, [], (0)%Z));
+  ([52;107;51;47;51;80;52;47;56;47;56;47;56;47;56;47;56;47;52;75;51;32], (14, [], (0)%Z));
+  ([52;107;51;47;51;80;52;47;56;47;56;47;56;47;56;47;56;47;52;75;51;32;119;32;45;32;45;32;48;32;49], (14, [], (0)%Z));
+  ([52;107;51;47;51;80;52;47;56;47;56;47;56;47;56;47;56;47;52;75;51;32;124;32;45;32;45;32;48;32;49], (14, [], (0)%Z));
+  ([56;47;56;47;56;47;56;47;56;47;56;47;56;47;53;107;75;49;32;98;32;45;32;45;32;48;32;49], (14, [], (0)%Z));
+  ([50;114;50;98;50;47;113;51;107;51;47;110;49;112;114;52;47;49;80;110;50;78;112;112;47;50;81;49;80;112;98;80;47;53;80;50;47;52;80;49;66;82;47;82;49;66;50;75;78;49;32], (14, [], (0)%Z));
+  ([52;107;51;47;56;47;56;47;56;47;66;55;47;56;47;56;47;52;75;51;32], (14, [], (0)%Z));
+  ([56;47;56;47;56;47;56;47;56;47;56;47;56;47;53;107;75;49;32;119], (14, [], (0)%Z));
+  ([113;51;107;51;47;56;47;56;47;56;47;56;47;56;47;56;47;75;55;32;98;32;45;32;45;32;48;32;49], (14, [], (0)%Z));
+  ([52;107;51;47;51;80;52;47;56;47;56;47;56;47;56;47;56;47;52;75;51;32;124], (14, [], (0)%Z));
+  ([52;107;51;47;56;47;56;47;56;47;56;47;56;47;56;47;52;82;75;50], (14, [], (0)%Z));
+  ([52;107;51;47;56;47;53;78;50;47;56;47;56;47;56;47;56;47;52;75;51;32;124], (14, [], (0)%Z));
+  ([52;107;51;47;56;47;56;47;56;47;66;55;47;56;47;56;47;52;75;51;32;124], (14, [], (0)%Z));
+  ([52;107;51;47;56;47;56;47;56;47;66;55;47;56;47;50;110;53;47;52;75;51;32;124;32;45;32;45;32;48;32;49], (14, [], (0)%Z));
+  ([52;107;51;47;56;47;53;78;50;47;56;47;56;47;56;47;56;47;52;75;51;32;124;32;45;32;45;32;48;32;49], (14, [], (0)%Z));
+  ([52;107;51;47;56;47;56;47;56;47;66;55;47;56;47;56;47;52;75;51;32;32;45;32;45;32;48;32;49], (8, [], (0)%Z));
+  ([114;49;98;113;107;98;49;114;47;112;112;112;49;112;49;112;112;47;110;54;110;47;51;112;52;47;52;80;49;112;49;47;56;47;80;80;80;80;49;80;80;80;47;82;78;66;49;75;66;78;82;32;119;98;32;113], (8, [], (0)%Z));
+  ([51;113;107;98;110;49;47;110;49;112;98;52;47;114;112;49;112;112;51;47;112;66;49;80;80;50;112;47;51;66;49;114;49;78;47;54;112;49;47;80;80;80;49;78;50;80;47;49;82;50;75;49;82;49;32;119;124;98;32;107;75;32;101;51;51], (8, [], (0)%Z));
+  ([114;110;98;113;107;98;110;114;47;50;112;112;112;51;47;112;112;51;112;112;49;47;55;112;47;56;47;51;80;66;80;80;80;47;80;80;80;81;80;51;47;82;78;50;75;66;78;82;32;119;119;32;75;81;113], (8, [], (0)%Z));
+  ([114;110;98;49;107;49;114;49;47;112;112;49;112;52;47;66;113;53;112;47;98;50;80;112;112;112;80;47;80;80;112;50;80;81;49;47;82;49;80;52;75;47;51;80;50;80;82;47;49;78;66;51;78;49;32;32;45;32;45;32;50;32;50;50], (8, [], (0)%Z));
+  ([52;107;51;47;56;47;56;47;56;47;56;47;56;47;56;47;52;75;51;32;87;32;45;32;45;32;51;32;45;55], (8, [], (0)%Z));
+  ([113;51;107;51;47;56;47;56;47;56;47;56;47;56;47;56;47;75;55;32;32;45;32;45;32;120;32;49], (8, [], (0)%Z));
+  ([52;107;51;47;56;47;56;47;56;47;56;47;56;47;56;47;52;75;51;32;195;164], (8, [], (0)%Z));
+  ([114;110;98;113;49;98;49;114;47;49;112;112;49;107;49;112;49;47;53;110;50;47;112;50;112;51;112;47;52;112;112;80;80;47;49;80;49;80;52;47;80;49;80;81;80;80;66;82;47;82;78;66;49;75;49;78;49;32;87], (8, [], (0)%Z));
+  ([52;107;51;47;56;47;56;47;56;47;56;47;56;47;56;47;52;75;51;32;119;119], (8, [], (0)%Z));
+  ([51;114;110;51;47;112;98;51;107;49;112;47;49;112;112;112;112;49;110;49;47;49;113;80;50;112;66;49;47;80;80;51;98;50;47;82;50;80;80;49;80;49;47;78;53;66;80;47;51;81;75;49;78;82;32;195;164;32;75;107;113;32], (8, [], (0)%Z));
+  ([114;110;98;113;51;114;47;50;112;112;112;107;98;112;47;112;112;54;47;80;53;66;49;47;51;80;110;51;47;50;78;51;80;80;47;49;80;80;49;80;80;50;47;82;50;81;75;66;49;82;32;119;98], (8, [], (0)%Z));
+  ([114;110;98;51;114;49;47;112;112;49;112;49;107;112;49;47;66;113;53;112;47;98;50;80;112;112;49;80;47;80;80;112;50;80;81;49;47;82;49;80;51;75;49;47;51;80;50;80;82;47;49;78;66;51;78;49;32;119;82;32;45;32;45;32;50;32;50;48], (8, [], (0)%Z));
+  ([114;49;98;107;49;98;110;114;47;112;50;112;112;49;112;112;47;110;52;112;50;47;50;112;53;47;49;112;50;80;50;80;47;56;47;113;80;80;80;75;80;80;49;47;82;78;66;81;49;66;78;82;32;82;119;110;32;45;32;45;32;49;32;57], (8, [], (0)%Z));
+  ([52;107;51;47;56;47;56;47;56;47;56;47;56;47;56;47;52;75;51;32;124;32;45;32;45;32;55;32;49;48;48;48;48;48;49], (17, [], (0)%Z));
+  ([52;107;51;47;56;47;56;47;56;47;56;47;56;47;56;47;52;75;51;32;119;32;45;32;45;32;48;32;57;50;50;51;51;55;50;48;51;54;56;53;52;55;55;53;56;48;55], (17, [], (0)%Z));
+  ([52;107;51;47;56;47;56;47;56;47;56;47;56;47;56;47;52;75;51;32;119;32;45;32;45;32;48;32;45;52;54;49;49;54;56;54;48;49;56;52;50;55;51;56;55;57;48;52], (17, [], (0)%Z));
+  ([52;107;51;47;56;47;56;47;56;47;56;47;56;47;56;47;52;75;51;32;124;32;45;32;45;32;55;32;50;48;48;48;48;48;48], (17, [], (0)%Z));
+  ([52;107;51;47;56;47;56;47;56;47;56;47;56;47;56;47;52;75;51;32;119;32;45;32;45;32;48;32;45;52;54;49;49;54;56;54;48;49;56;52;50;55;51;56;55;57;48;53], (17, [], (0)%Z));
+  ([52;107;51;47;56;47;56;47;56;47;56;47;56;47;56;47;52;75;51;32;119;32;45;32;45;32;48;32;45;52;54;49;49;54;56;54;48;49;56;52;50;55;51;56;55;57;48;51], (17, [], (0)%Z));
+  ([52;107;51;47;56;47;56;47;56;47;56;47;56;47;56;47;52;75;51;32;119;32;45;32;45;32;48;32;45;49], (17, [], (0)%Z));
+  ([52;107;51;47;56;47;56;47;56;47;56;47;56;47;56;47;52;75;51;32;124;32;45;32;45;32;55;32;45;57;50;50;51;51;55;50;48;51;54;56;53;52;55;55;53;56;48;56], (17, [], (0)%Z));
+  ([52;107;51;47;56;47;56;47;56;47;56;47;56;47;56;47;52;75;51;32;119;32;45;32;45;32;48;32;45;57;50;50;51;51;55;50;48;51;54;56;53;52;55;55;53;56;48;56], (17, [], (0)%Z));
+  ([52;107;51;47;56;47;56;47;56;47;56;47;56;47;56;47;52;75;51;32;119;32;45;32;45;32;48;32;50;48;48;48;48;48;48], (17, [], (0)%Z));
+  ([52;107;51;47;56;47;56;47;56;47;56;47;56;47;56;47;52;75;51;32;119;32;45;32;45;32;48;32;49;48;48;48;48;48;49], (17, [], (0)%Z));
+  ([52;107;51;47;56;47;56;47;56;47;56;47;56;47;56;47;52;75;51;32;98;32;45;32;45;32;48;32;57;50;50;51;51;55;50;48;51;54;56;53;52;55;55;53;56;48;54], (17, [], (0)%Z));
+  ([52;107;51;47;56;47;56;47;56;47;56;47;56;47;56;47;52;75;51;32;119;32;45;32;45;32;48;32;52;54;49;49;54;56;54;48;49;56;52;50;55;51;56;55;57;48;51], (17, [], (0)%Z));
+  ([52;107;51;47;56;47;56;47;56;47;56;47;56;47;56;47;52;75;51;32;98;32;45;32;45;32;51;32;45;55], (17, [], (0)%Z));
+  ([52;107;51;47;56;47;56;47;56;47;56;47;56;47;56;47;52;75;51;32;98;32;75;81;32;101;53;32;48;32;49], (11, [], (0)%Z));
+  ([52;107;51;47;56;47;56;47;56;47;56;47;56;47;56;47;52;75;51;32;98;32;75;81;32;97;49;32;48;32;49], (11, [], (0)%Z));
+  ([114;110;98;113;107;98;110;114;47;112;112;112;112;49;112;112;112;47;56;47;52;112;51;47;52;80;51;47;56;47;80;80;80;80;49;80;80;80;47;82;78;66;81;75;66;78;82;32;124;32;75;81;107;113;32;104;56], (11, [], (0)%Z));
+  ([114;110;98;113;107;98;110;114;47;112;112;112;112;49;112;112;112;47;56;47;52;112;51;47;52;80;51;47;56;47;80;80;80;80;49;80;80;80;47;82;78;66;81;75;66;78;82;32;98;32;75;81;107;113;32;97;49;32;48;32;50], (11, [], (0)%Z));
+  ([52;107;51;47;56;47;52;80;51;47;52;112;51;47;52;80;51;47;52;112;51;47;56;47;52;75;51;32;98;32;45;32;101;52], (11, [], (0)%Z));
+  ([52;107;51;47;56;47;56;47;56;47;56;47;56;47;56;47;52;75;51;32;98;32;75;81;32;101;52;32;48;32;49], (11, [], (0)%Z));
+  ([52;107;51;47;56;47;52;80;51;47;52;112;51;47;52;80;51;47;52;112;51;47;56;47;52;75;51;32;119;32;45;32;101;55], (11, [], (0)%Z));
+  ([52;107;51;47;56;47;56;47;56;47;56;47;56;47;56;47;52;75;51;32;119;32;45;32;104;56], (11, [], (0)%Z));
+  ([114;110;98;113;107;98;110;49;47;50;112;112;112;50;114;47;112;112;51;112;112;49;47;55;112;47;56;47;78;50;80;66;80;80;80;47;80;80;80;81;80;51;47;82;51;75;66;78;82;32;124;32;81;32;104;56;32;43;48], (11, [], (0)%Z));
+  ([52;107;51;47;56;47;56;47;56;47;56;47;56;47;56;47;52;75;51;32;98;32;75;81;32;101;55;32;48;32;49], (11, [], (0)%Z));
+  ([52;107;51;47;56;47;52;80;51;47;52;112;51;47;52;80;51;47;52;112;51;47;56;47;52;75;51;32;98;32;45;32;101;53], (11, [], (0)%Z));
+  ([52;107;51;47;56;47;56;47;56;47;56;47;56;47;56;47;52;75;51;32;119;32;45;32;97;49], (11, [], (0)%Z));
+  ([114;110;98;113;107;98;110;114;47;112;112;112;112;49;112;112;112;47;56;47;52;112;51;47;52;80;51;47;56;47;80;80;80;80;49;80;80;80;47;82;78;66;81;75;66;78;82;32;124;32;75;81;107;113;32;101;53], (11, [], (0)%Z));
+  ([52;107;51;47;56;47;56;47;56;47;56;47;56;47;56;47;52;75;51;32;119;32;45;32;101;50], (11, [], (0)%Z));
+  ([52;107;51;47;56;47;56;47;56;47;56;47;56;47;56;47;52;75;51;32;98;32;45;32;45;32;45;49;32;45;49], (16, [], (0)%Z));
+  ([52;107;51;47;56;47;56;47;56;47;56;47;56;47;56;47;52;75;51;32;98;32;45;32;45;32;45;52;54;49;49;54;56;54;48;49;56;52;50;55;51;56;55;57;48;52;32;45;52;54;49;49;54;56;54;48;49;56;52;50;55;51;56;55;57;48;52], (16, [], (0)%Z));
+  ([52;107;51;47;56;47;56;47;56;47;56;47;56;47;56;47;52;75;51;32;119;32;45;32;45;32;45;52;54;49;49;54;56;54;48;49;56;52;50;55;51;56;55;57;48;51], (16, [], (0)%Z));
+  ([52;107;51;47;56;47;56;47;56;47;56;47;56;47;56;47;52;75;51;32;119;32;45;32;45;32;45;50], (16, [], (0)%Z));
+  ([52;107;51;47;56;47;56;47;56;47;56;47;56;47;56;47;52;75;51;32;98;32;45;32;45;32;45;52;54;49;49;54;56;54;48;49;56;52;50;55;51;56;55;57;48;51;32;45;52;54;49;49;54;56;54;48;49;56;52;50;55;51;56;55;57;48;51], (16, [], (0)%Z));
+  ([52;107;51;47;56;47;56;47;56;47;56;47;56;47;56;47;52;75;51;32;119;32;45;32;45;32;45;57;50;50;51;51;55;50;48;51;54;56;53;52;55;55;53;56;48;55;32;49], (16, [], (0)%Z));
+  ([52;107;51;47;56;47;56;47;56;47;56;47;56;47;56;47;52;75;51;32;119;32;45;32;45;32;45;57;50;50;51;51;55;50;48;51;54;56;53;52;55;55;53;56;48;55], (16, [], (0)%Z));
+  ([52;107;51;47;56;47;56;47;56;47;56;47;56;47;56;47;52;75;51;32;98;32;45;32;45;32;45;57;50;50;51;51;55;50;48;51;54;56;53;52;55;55;53;56;48;56;32;45;57;50;50;51;51;55;50;48;51;54;56;53;52;55;55;53;56;48;56], (16, [], (0)%Z));
+  ([52;107;51;47;56;47;56;47;56;47;56;47;56;47;56;47;52;75;51;32;119;32;45;32;45;32;45;52;54;49;49;54;56;54;48;49;56;52;50;55;51;56;55;57;48;53], (16, [], (0)%Z));
+  ([52;107;51;47;56;47;56;47;56;47;56;47;56;47;56;47;52;75;51;32;98;32;45;32;45;32;45;52;54;49;49;54;56;54;48;49;56;52;50;55;51;56;55;57;48;53;32;45;52;54;49;49;54;56;54;48;49;56;52;50;55;51;56;55;57;48;53], (16, [], (0)%Z));
+  ([52;107;51;47;56;47;56;47;56;47;56;47;56;47;56;47;52;75;51;32;119;32;45;32;45;32;45;57;50;50;51;51;55;50;48;51;54;56;53;52;55;55;53;56;48;56;32;49], (16, [], (0)%Z));
+  ([52;107;51;47;56;47;56;47;56;47;56;47;56;47;56;47;52;75;51;32;119;32;45;32;45;32;45;52;54;49;49;54;56;54;48;49;56;52;50;55;51;56;55;57;48;51;32;49], (16, [], (0)%Z));
+  ([52;107;51;47;56;47;56;47;56;47;56;47;56;47;56;47;52;75;51;32;119;32;45;32;45;32;45;52;54;49;49;54;56;54;48;49;56;52;50;55;51;56;55;57;48;53;32;49], (16, [], (0)%Z));
+  ([52;107;51;47;56;47;56;47;56;47;56;47;56;47;56;47;52;75;51;32;119;32;45;32;45;32;45;52;54;49;49;54;56;54;48;49;56;52;50;55;51;56;55;57;48;52], (16, [], (0)%Z));
+  ([52;107;51;47;56;47;56;47;56;47;56;47;56;47;56;47;52;75;51;32;98;32;45;32;45;32;49;46;48;32;49;46;48], (12, [], (0)%Z));
+  ([52;107;51;47;56;47;56;47;56;47;56;47;56;47;56;47;52;75;51;32;119;32;32;45;32;45;32;48;32;49], (12, [], (0)%Z));
+  ([52;107;51;47;56;47;56;47;56;47;56;47;56;47;56;47;52;75;51;32;119;32;45;32;45;32;48;10;49], (12, [], (0)%Z));
+  ([52;107;51;47;56;47;56;47;56;47;56;47;56;47;56;47;52;75;51;32;119;32;45;32;45;32;53;97;32;49], (12, [], (0)%Z));
+  ([114;53;110;114;47;112;50;107;112;49;98;112;47;98;49;112;112;78;51;47;80;52;112;112;49;47;49;80;54;47;49;80;49;80;49;81;49;80;47;50;78;50;80;80;49;47;49;82;66;49;75;66;49;82;32;119;32;45;32;45;32;32;50;226;128;139], (12, [], (0)%Z));
+  ([52;107;51;47;56;47;56;47;56;47;56;47;56;47;56;47;52;75;51;32;119;32;45;32;45;32;48;32;49;46;48], (12, [], (0)%Z));
+  ([52;107;51;47;56;47;53;78;50;47;56;47;56;47;56;47;56;47;52;75;51;32;98;32;45;32;45;32;120;32;49], (12, [], (0)%Z));
+  ([52;107;51;47;56;47;56;47;56;47;56;47;56;47;56;47;52;75;51;32;119;32;45;32;45;32;48;32;49;226], (12, [], (0)%Z));
+  ([52;107;51;47;56;47;56;47;56;47;56;47;56;47;56;47;52;82;75;50;32;98;32;45;32;45;32;120;32;49], (12, [], (0)%Z));
+  ([52;107;51;47;56;47;56;47;56;47;56;47;56;47;56;47;52;75;51;32;98;32;45;32;45;32;48;32;43], (12, [], (0)%Z));
+  ([52;107;51;47;56;47;56;47;56;47;56;47;56;47;56;47;52;75;51;32;119;32;45;32;45;32;53;97], (12, [], (0)%Z));
+  ([114;110;98;113;107;98;110;114;47;112;112;112;49;112;49;112;112;47;56;47;51;112;49;112;49;80;47;56;47;50;80;53;47;80;80;49;80;80;80;80;49;47;82;78;66;81;75;66;78;82;32;98;32;75;81;107;113;32;45;32;48;32;51;133], (12, [], (0)%Z));
+  ([52;107;51;47;56;47;56;47;56;47;56;47;56;47;56;47;52;75;51;32;119;32;45;32;45;32;49;95;48;48;48;32;49], (12, [], (0)%Z));
+  ([114;110;98;113;49;107;110;114;47;112;49;112;49;112;49;98;49;47;52;112;112;112;112;47;49;112;54;47;49;80;54;47;50;80;53;47;80;50;80;80;80;80;80;47;82;78;66;81;75;66;49;82;32;119;32;75;81;32;45;32;49;32;56;158], (12, [], (0)%Z))].
+Example fen_observed_agree :
+  forallb (fun '(s, (c, f, n)) => let '(c', f', n') := fen_obs s in
+             (c =? c') && str_eqb f f' && (n =? n')%Z && fen_case_ok s (if c =? 0 then 1 else 0) f) fen_observed = true.
+Proof. vm_compute. reflexivity. Qed.
 
 Print Assumptions fen_total.
 Print Assumptions fen_wellformed.
